@@ -129,7 +129,10 @@ class Histories(common.Suite):
         n = 1400 if tier == "quick" else 20000
         for i in range(n):
             ens = self.ensembles[i % len(self.ensembles)]
-            yield machine.gen_case(rng, ens, tier)
+            case = machine.gen_case(rng, ens, tier)
+            if ens == "grand" and i % 23 == 5:
+                case["template_extra"] = True    # the species carries a per-atom array the system lacks (recorded finding)
+            yield case
 
     def real(self, case):
         obs = machine.run_real(case)
